@@ -25,24 +25,28 @@ func TestVerifC07(t *testing.T) {
 	}()
 	none := []protocol.ECN{protocol.ECNNon}
 	explore.Main("C07", []explore.Part{
+		// cheap parts first: the run-wide deadline can then only cut the largest part
 		c07HistoryPart("history"),
+		c07PrunePart("prune"),
 		// Initial + Handshake spaces, drops (also while a Handshake packet is being processed)
 		c07HandlerPart("initial-handshake", func(e explore.Env) *c07Cfg {
 			u := c07Pick(e, 3, 4)
 			return &c07Cfg{U: [3]int{u, u, 0}, ecn: none, drops: true}
 		}, "Initial and Handshake spaces"),
-		// application data: arrival orders x ack-eliciting x forget-below x clock x ACK retrieval
-		c07HandlerPart("appdata", func(e explore.Env) *c07Cfg {
-			return &c07Cfg{U: [3]int{0, 0, c07Pick(e, 6, 7)}, ecn: none, forget: true, forgetOld: e.Thorough(), ticks: true}
-		}, "application-data space"),
-		// application data with ECN marks and 0-RTT packets
+		// application data with ECN marks, 0-RTT packets and dishonest packet numbering
 		c07HandlerPart("appdata-ecn-0rtt", func(e explore.Env) *c07Cfg {
 			return &c07Cfg{U: [3]int{0, 0, c07Pick(e, 3, 4)}, ecn: []protocol.ECN{protocol.ECNNon, protocol.ECT0, protocol.ECNCE}, zeroRTT: true, forget: true, forgetOld: true, dishonest: true, ticks: true}
 		}, "application-data space with ECN marks and 0-RTT"),
 		// all three spaces together (dispatch between the trackers)
 		c07HandlerPart("three-spaces", func(e explore.Env) *c07Cfg {
-			return &c07Cfg{U: [3]int{1, 1, c07Pick(e, 3, 4)}, ecn: none, forget: true, forgetOld: true, drops: true, ticks: true}
+			if e.Thorough() {
+				return &c07Cfg{U: [3]int{2, 2, 3}, ecn: none, forget: true, forgetOld: true, drops: true, ticks: true}
+			}
+			return &c07Cfg{U: [3]int{1, 1, 3}, ecn: none, forget: true, forgetOld: true, drops: true, ticks: true}
 		}, "all three spaces"),
-		c07PrunePart("prune"),
+		// application data: arrival orders x ack-eliciting x forget-below x clock x ACK retrieval
+		c07HandlerPart("appdata", func(e explore.Env) *c07Cfg {
+			return &c07Cfg{U: [3]int{0, 0, c07Pick(e, 6, 7)}, ecn: none, forget: true, forgetOld: e.Thorough(), ticks: true}
+		}, "application-data space"),
 	}, func(msg string) { t.Fatal(msg) })
 }
